@@ -90,6 +90,7 @@ type VerifCMPeerCert struct {
 	NotBefore   time.Time
 	NotAfter    time.Time
 	Version     int
+	cc          *cert.CachedCertificate
 }
 
 type verifCMReader struct{ f func([]byte) }
@@ -355,11 +356,14 @@ func (w *VerifCMWorld) AddTunnel(t VerifCMTunnel) int {
 	cs := &ConnectionState{myCert: t.MyCert, eKey: verifCMCipher{}, dKey: verifCMCipher{}, window: NewBits(ReplayWindow)}
 	if t.Peer != nil {
 		// a real verification at a time the certificate is valid, against a pool that trusts its authority
-		cc, err := w.m.pool([]int{t.Peer.CA}, nil).VerifyCertificate(t.Peer.NotBefore.Add(time.Nanosecond), t.Peer.Crt)
-		if err != nil {
-			panic(fmt.Sprintf("verif connmgr: peer certificate does not verify: %v", err))
+		if t.Peer.cc == nil {
+			cc, err := w.m.pool([]int{t.Peer.CA}, nil).VerifyCertificate(t.Peer.NotBefore.Add(time.Nanosecond), t.Peer.Crt)
+			if err != nil {
+				panic(fmt.Sprintf("verif connmgr: peer certificate does not verify: %v", err))
+			}
+			t.Peer.cc = cc
 		}
-		cs.peerCert = cc
+		cs.peerCert = t.Peer.cc
 	}
 	cs.messageCounter.Store(t.Counter)
 	hi.ConnectionState = cs
